@@ -165,13 +165,13 @@ def gen_generic(seed, nticks=40, laws=("const",), over=None, tps_choices=(1, 2, 
                     if rng.random() < 0.3:
                         rng.shuffle(sel)
                     refs = [(pid, o) for o in sel]
-                pool = rng.randrange(cfg["npools"]) if rng.random() > bias.get("unknown_pool", 0.02) else cfg["npools"] + rng.randint(0, 2)
+                pool = rng.randrange(cfg["npools"]) if rng.random() > bias.get("unknown_pool", 0.02) else rng.choice([cfg["npools"], cfg["npools"] + 2, -1, -1, -2])
                 pk = max([peak_gb(pipes[p]["ops"][o]) for p, o in refs] + [F(1, 64)])
                 wild = rng.random() < bias.get("wild_amounts", 0.25)
                 ram = rng.choice([pk, pk, pk + F(1, 64), max(pk - F(1, 64), F(1, 64)), F(1, 2), 2] + ([4, ramq, F(0), ramq * 2] if wild else []))
                 cpu = rng.choice([1, 1, 2] + ([cfg["cpus"], 0, cfg["cpus"] + 1] if wild else []))
                 if not wild:
-                    pl = pools[pool] if pool < len(pools) else None
+                    pl = pools[pool] if 0 <= pool < len(pools) else None
                     if pl is None or pl["ac"] < cpu or (not cfg["over"] and pl["ar"] < to_q(ram, g.q)):
                         continue
                 g.assign(pool, cpu, ram, refs)
@@ -179,7 +179,7 @@ def gen_generic(seed, nticks=40, laws=("const",), over=None, tps_choices=(1, 2, 
                 for c in p["A"]:
                     r = rng.random()
                     if (c[4] and r < bias.get("suspend", 0.5)) or r < bias.get("bad_suspend", 0.03):
-                        g.emit(["suspend", pi if rng.random() > 0.03 else cfg["npools"], c[0]])
+                        g.emit(["suspend", pi if rng.random() > bias.get("unknown_pool", 0.02) else rng.choice([cfg["npools"], -1]), c[0]])
                         g.count("suspend_req_legal" if c[4] else "suspend_req_illegal")
             if rng.random() < bias.get("bad_suspend", 0.03) / 3:
                 g.emit(["suspend", 0, 999])
